@@ -7,6 +7,9 @@
                `EncView` / `encode_view` (`encode_spec` exposing the backend call and `IsStripe`),
                `missingOfStripe enc frags` (ascending indexes of the stripe not supplied)
   helper layer `encode_fragment_facts`, `encode_fragments_distinct`, `encode_length`
+  header loop  `decode_gate_fail`, `reconstruct_gate_fail` (`gateBad fragLen` true on one supplied
+               fragment ⇒ EBADHEADER); `EncView.sub_gate`: fragments of the stripe always pass it for
+               `fragLen = 80 + blockSize` (valid header, announced sizes = block size + 0)
   C01          `decode_roundtrip`, `decode_roundtrip_forced`
   C02          `decode_sound'`, `decode_sound`, `reconstruct_sound'`, `reconstruct_sound`
   C03          `reconstruct_fidelity`, `reconstruct_range`
@@ -187,6 +190,20 @@ theorem EncView.header_valid (hv : EncView env be i data (blockSize i data.lengt
   rw [hv.enc_getD j hj]
   exact fresh_header_valid env i j _ _ _ (hok.fresh j hj)
 
+/-- an encoded fragment announces exactly its payload, so it passes the length test of the header
+    loop for the declared length `80 + blockSize`. -/
+theorem EncView.frag_fits (hv : EncView env be i data (blockSize i data.length) enc dataP parP)
+    (hok : FrontOK env i data.length) (j : Nat) (hj : j < i.k + i.m) :
+    fragExceedsLength (enc.getD j []) (80 + blockSize i data.length) = false := by
+  rw [hv.enc_getD j hj]
+  exact fresh_not_exceeds env i j _ _ _ (hok.fresh j hj) _ (Nat.le_refl _)
+
+theorem EncView.gate_ok (hv : EncView env be i data (blockSize i data.length) enc dataP parP)
+    (hok : FrontOK env i data.length) (j : Nat) (hj : j < i.k + i.m) :
+    gateBad (80 + blockSize i data.length) (enc.getD j []) = false := by
+  rw [hv.enc_getD j hj]
+  exact fresh_gate env i j _ _ _ (hok.fresh j hj) _ (Nat.le_refl _)
+
 theorem EncView.frag_valid (hv : EncView env be i data (blockSize i data.length) enc dataP parP)
     (hok : FrontOK env i data.length) (hc : be.compat i.beVer = true) (j : Nat) (hj : j < i.k + i.m) :
     isInvalidFragment env be i (enc.getD j []) = false := by
@@ -227,6 +244,18 @@ theorem EncView.sub_valid (hv : EncView env be i data (blockSize i data.length) 
     obtain ⟨j, hj, rfl⟩ := hv.mem_enc (hsub f hf)
     rw [hv.header_valid hok j hj] at hi; cases hi
 
+/-- fragments drawn from the stripe pass the header loop of decode / reconstruct (valid header and
+    announced sizes within the declared length `80 + blockSize`). -/
+theorem EncView.sub_gate (hv : EncView env be i data (blockSize i data.length) enc dataP parP)
+    (hok : FrontOK env i data.length) {frags : List Bytes} (hsub : ∀ f ∈ frags, f ∈ enc) :
+    frags.any (gateBad (80 + blockSize i data.length)) = false := by
+  cases h : frags.any (gateBad (80 + blockSize i data.length)) with
+  | false => rfl
+  | true =>
+    obtain ⟨f, hf, hi⟩ := List.any_eq_true.mp h
+    obtain ⟨j, hj, rfl⟩ := hv.mem_enc (hsub f hf)
+    rw [hv.gate_ok hok j hj] at hi; cases hi
+
 end viewok
 
 /-! ### the structure of `decode` -/
@@ -257,13 +286,30 @@ theorem decode_unfold (env : Env) (be : Backend) (i : Inst) (frags : List Bytes)
     decode env be i frags fragLen force =
       if frags.length < i.k then failRc EINSUFFFRAGS else
       if fragLen < Hdr.size then failRc EBADHEADER else
-      if frags.any isInvalidHeader then failRc EBADHEADER else
+      if frags.any (gateBad fragLen) then failRc EBADHEADER else
       if force && (if force then frags.filter (fun f => !isInvalidFragment env be i f) else frags).length < i.k
       then failRc EINSUFFFRAGS
       else decodeTail env be i (if force then frags.filter (fun f => !isInvalidFragment env be i f) else frags)
         fragLen := rfl
 
+/-- the header loop of decode: one supplied fragment with an unacceptable header, or whose header
+    announces more bytes than the declared length holds, and decode answers EBADHEADER. -/
+theorem decode_gate_fail (env : Env) (be : Backend) (i : Inst) (frags : List Bytes) (fragLen : Nat) (force : Bool)
+    (hn : i.k ≤ frags.length) (hl : Hdr.size ≤ fragLen) (hg : frags.any (gateBad fragLen) = true) :
+    decode env be i frags fragLen force = .error (.rc (-EBADHEADER)) := by
+  rw [decode_unfold]
+  simp only [show ¬ frags.length < i.k from by omega, show ¬ fragLen < Hdr.size from by omega, hg,
+    if_true, if_false, failRc]
 
+/-- the header loop of reconstruct, for an in-range destination. -/
+theorem reconstruct_gate_fail (env : Env) (be : Backend) (i : Inst) (frags : List Bytes) (fragLen : Nat) (dest : Int)
+    (hd : 0 ≤ dest ∧ dest < ((i.k + i.m : Nat) : Int)) (hl : Hdr.size ≤ fragLen)
+    (hg : frags.any (gateBad fragLen) = true) :
+    reconstruct env be i frags fragLen dest = .error (.rc (-EBADHEADER)) := by
+  unfold reconstruct
+  have h1 : (decide (dest < 0) || decide (dest ≥ ((i.k + i.m : Nat) : Int))) = false := by
+    simp; omega
+  simp only [h1, Bool.false_eq_true, if_false, hg, if_true, failRc, show ¬ fragLen < Hdr.size from by omega]
 
 theorem present_of_missing_le (F : Nat → Bytes) (fs : List Bytes) (k m : Nat) (hk : 0 < k)
     (h : (missingIdx F fs (k + m)).length ≤ m) : ∃ j, j < k + m ∧ F j ∈ fs := by
@@ -497,17 +543,17 @@ end dec
 /-- **C20**: with forced metadata checks, decode is plain decode of the fragments that validate
     (for any supplied fragments whose headers are acceptable). -/
 theorem decode_forced_filter (env : Env) (be : Backend) (i : Inst) (frags : List Bytes) (fragLen : Nat)
-    (hn : i.k ≤ frags.length) (hl : 80 ≤ fragLen) (hh : frags.any isInvalidHeader = false) :
+    (hn : i.k ≤ frags.length) (hl : 80 ≤ fragLen) (hh : frags.any (gateBad fragLen) = false) :
     decode env be i frags fragLen true =
       (if (frags.filter (fun f => !isInvalidFragment env be i f)).length < i.k
        then .error (.rc (-EINSUFFFRAGS))
        else decode env be i (frags.filter (fun f => !isInvalidFragment env be i f)) fragLen false) := by
-  have hh' : (frags.filter (fun f => !isInvalidFragment env be i f)).any isInvalidHeader = false := by
-    cases h : (frags.filter (fun f => !isInvalidFragment env be i f)).any isInvalidHeader with
+  have hh' : (frags.filter (fun f => !isInvalidFragment env be i f)).any (gateBad fragLen) = false := by
+    cases h : (frags.filter (fun f => !isInvalidFragment env be i f)).any (gateBad fragLen) with
     | false => rfl
     | true =>
       obtain ⟨f, hf, hi⟩ := List.any_eq_true.mp h
-      have : frags.any isInvalidHeader = true :=
+      have : frags.any (gateBad fragLen) = true :=
         List.any_eq_true.mpr ⟨f, (List.mem_filter.mp hf).1, hi⟩
       rw [hh] at this; cases this
   rw [decode_unfold, decode_unfold]
@@ -523,15 +569,15 @@ theorem decode_forced_filter (env : Env) (be : Backend) (i : Inst) (frags : List
     supplied fragments remain for the count check). -/
 theorem decode_forced_ignores_invalid (env : Env) (be : Backend) (i : Inst) (frags : List Bytes) (fragLen : Nat)
     (f : Bytes) (hbad : isInvalidFragment env be i f = true)
-    (hn : i.k ≤ (frags.erase f).length) (hl : 80 ≤ fragLen) (hh : frags.any isInvalidHeader = false) :
+    (hn : i.k ≤ (frags.erase f).length) (hl : 80 ≤ fragLen) (hh : frags.any (gateBad fragLen) = false) :
     decode env be i frags fragLen true = decode env be i (frags.erase f) fragLen true := by
   have hsub : ∀ g ∈ frags.erase f, g ∈ frags := fun g hg => List.mem_of_mem_erase hg
-  have hh' : (frags.erase f).any isInvalidHeader = false := by
-    cases h : (frags.erase f).any isInvalidHeader with
+  have hh' : (frags.erase f).any (gateBad fragLen) = false := by
+    cases h : (frags.erase f).any (gateBad fragLen) with
     | false => rfl
     | true =>
       obtain ⟨g, hg, hi⟩ := List.any_eq_true.mp h
-      have : frags.any isInvalidHeader = true := List.any_eq_true.mpr ⟨g, hsub g hg, hi⟩
+      have : frags.any (gateBad fragLen) = true := List.any_eq_true.mpr ⟨g, hsub g hg, hi⟩
       rw [hh] at this; cases this
   have hlen : i.k ≤ frags.length := by
     have := List.length_erase_le (a := f) (l := frags); omega
@@ -581,7 +627,7 @@ theorem decode_roundtrip (hE : EncodeOK be i.k i.m bsOK) (hbs : bsOK (blockSize 
   rw [decode_unfold]
   have h1 : ¬ frags.length < i.k := by omega
   have h2 : ¬ 80 + blockSize i data.length < Hdr.size := by simp [Hdr.size]
-  simp only [h1, h2, hv.sub_valid hok hsub, if_false, Bool.false_and, Bool.false_eq_true]
+  simp only [h1, h2, hv.sub_gate hok hsub, if_false, Bool.false_and, Bool.false_eq_true]
   exact hv.decodeTail_roundtrip hok hsub hD hbs htol hmiss
 
 /-- every fragment of the stripe passes `is_invalid_fragment`, so the forced filter keeps all. -/
@@ -603,7 +649,7 @@ theorem decode_roundtrip_forced (hE : EncodeOK be i.k i.m bsOK) (hbs : bsOK (blo
     (hn : i.k ≤ frags.length) (hc : be.compat i.beVer = true) :
     decode env be i frags (80 + blockSize i data.length) true = .ok data := by
   obtain ⟨parP, hv⟩ := encode_view env be i data enc hE hbs henc
-  rw [decode_forced_filter env be i frags _ hn (by omega) (hv.sub_valid hok hsub),
+  rw [decode_forced_filter env be i frags _ hn (by omega) (hv.sub_gate hok hsub),
     forced_filter_id env be i data enc frags hE hbs hok henc hsub hc, if_neg (by omega)]
   exact decode_roundtrip env be i data enc frags hE hbs hok henc hsub hD htol hmiss hn
 
@@ -621,7 +667,7 @@ theorem decode_sound' (hE : EncodeOK be i.k i.m bsOK) (hbs : bsOK (blockSize i d
   by_cases h1 : frags.length < i.k
   · rw [if_pos h1]; exact Or.inr ⟨_, rfl, Or.inl (by decide)⟩
   · have h2 : ¬ 80 + blockSize i data.length < Hdr.size := by simp [Hdr.size]
-    simp only [h1, h2, hv.sub_valid hok hsub, if_false, Bool.false_eq_true]
+    simp only [h1, h2, hv.sub_gate hok hsub, if_false, Bool.false_eq_true]
     cases force with
     | false =>
       simp only [Bool.false_and, Bool.false_eq_true, if_false]
@@ -702,7 +748,7 @@ theorem EncView.reconstruct_eq (hv : EncView env be i data (blockSize i data.len
   have h1 : (decide ((dest : Int) < 0) || decide ((dest : Int) ≥ ((i.k + i.m : Nat) : Int))) = false := by
     simp; omega
   have h2 : ¬ 80 + blockSize i data.length < Hdr.size := by simp [Hdr.size]
-  simp only [h1, h2, hv.sub_valid hok hsub, Bool.false_eq_true, if_false, Int.toNat_natCast]
+  simp only [h1, h2, hv.sub_gate hok hsub, Bool.false_eq_true, if_false, Int.toNat_natCast]
   rw [partition_eq hidx frags (hF ▸ hv.sub_F hsub)]
   by_cases hm : (missingIdx F frags (i.k + i.m)).length > i.m
   · rw [if_pos hm, if_pos hm]
@@ -905,6 +951,7 @@ theorem encode_fragment_facts (hE : EncodeOK be i.k i.m bsOK) (hbs : bsOK (block
     (idx : Nat) (hidx : idx < i.k + i.m) :
     (enc.getD idx []).length = 80 + blockSize i data.length ∧
     isInvalidHeader (enc.getD idx []) = false ∧
+    gateBad (80 + blockSize i data.length) (enc.getD idx []) = false ∧
     fMagic (enc.getD idx []) = magicC ∧
     getFragmentIdx (enc.getD idx []) = (idx : Int) ∧
     getPayloadSize (enc.getD idx []) = (blockSize i data.length : Int) ∧
@@ -914,7 +961,7 @@ theorem encode_fragment_facts (hE : EncodeOK be i.k i.m bsOK) (hbs : bsOK (block
     (be.compat i.beVer = true → isInvalidFragment env be i (enc.getD idx []) = false) := by
   obtain ⟨parP, hv⟩ := encode_view env be i data enc hE hbs henc
   have hg := hv.good hok idx hidx
-  refine ⟨hv.frag_length idx hidx, hv.header_valid hok idx hidx, hg.magic, hg.idx, hg.size, hg.orig, ?_, ?_, ?_⟩
+  refine ⟨hv.frag_length idx hidx, hv.header_valid hok idx hidx, hv.gate_ok hok idx hidx, hg.magic, hg.idx, hg.size, hg.orig, ?_, ?_, ?_⟩
   · rw [hg.payload]; exact hv.pl_size idx hidx
   · intro h; rw [hg.payload]; exact hv.pl_data idx h
   · intro hc; exact hv.frag_valid hok hc idx hidx
@@ -980,6 +1027,8 @@ example (env : Env) (i : Inst) (data : Bytes) (enc : List Bytes) (hok : FrontOK 
 #print axioms reconstruct_range
 #print axioms reconstruct_sound'
 #print axioms reconstruct_sound
+#print axioms decode_gate_fail
+#print axioms reconstruct_gate_fail
 #print axioms decode_forced_filter
 #print axioms decode_forced_ignores_invalid
 end Lec
